@@ -136,13 +136,19 @@ class Extractor:
     # -- T3
     def hoist_items(self, body):
         items = []
-
-        def grab(m):
-            txt = m.group(0)
-            txt2 = re.sub(r"^\s*static\b", "const", txt.strip())
-            items.append(txt2)
-            return ""
-        new = re.sub(r"^[ \t]*(?:const|static)\s+[A-Z_0-9]+\s*:[^;]*;[ \t]*\n", grab, body, flags=re.M)
+        new = body
+        while True:
+            m = re.search(r"^[ \t]*(?:const|static)\s+[A-Z_0-9]+\s*:", new, flags=re.M)
+            if not m:
+                break
+            end = stmt_end(new, m.start())
+            txt = new[m.start():end].strip()
+            items.append(re.sub(r"^static\b", "const", txt))
+            # also swallow the rest of the line (trailing whitespace/newline)
+            nl = new.find("\n", end)
+            rest = new[end:nl if nl >= 0 else len(new)]
+            cut_to = (nl + 1) if nl >= 0 and rest.strip() == "" else end
+            new = new[:m.start()] + new[cut_to:]
         if items:
             self._t("T3", "hoisted %d const/static items to module level (static->const)" % len(items), body, new)
         return "\n".join(items), new
